@@ -79,20 +79,29 @@ def markAbove (state : List (OpId × MarkData)) (index : Nat) (name : Bytes) : O
 def markBelow (state : List (OpId × MarkData)) (index : Nat) (name : Bytes) : Option MarkData :=
   ((state.take index).reverse.find? (fun p => p.2.name == name)).map (·.2)
 
+/-- cache update of `mark_begin`: nothing above ⇒ the new mark is on top of its name -/
+def beginCache (cur : MarkSet) (above : Bool) (below : Option MarkData) (d : MarkData) : MarkSet :=
+  if above then cur else
+  match below with
+  | some b => if b.value != d.value then cur.insert d.name d.value else cur
+  | none => cur.insert d.name d.value
+
 def Msm.markBegin (m : Msm) (id : OpId) (d : MarkData) : Msm :=
   match Msm.find m.state id with
   | .ok _ => m
   | .error index =>
-    let cur :=
-      if (markAbove m.state index d.name).isNone then
-        match markBelow m.state index d.name with
-        | some below => if below.value != d.value then m.current.insert d.name d.value else m.current
-        | none => m.current.insert d.name d.value
-      else m.current
-    { state := m.state.take index ++ (id, d) :: m.state.drop index, current := cur }
+    { state := m.state.take index ++ (id, d) :: m.state.drop index,
+      current := beginCache m.current (markAbove m.state index d.name).isSome (markBelow m.state index d.name) d }
 
 /-- `OpId::prev` -/
 def OpId.prev (i : OpId) : OpId := ⟨i.ctr - 1, i.actor⟩
+
+/-- cache update of `mark_end`: nothing above ⇒ the mark below (if any) becomes the top of its name -/
+def endCache (cur : MarkSet) (above : Bool) (below : Option MarkData) (mark : MarkData) : MarkSet :=
+  if above then cur else
+  match below with
+  | some b => if b.value == mark.value then cur else cur.insert b.name b.value
+  | none => cur.remove mark.name
 
 def Msm.markEnd (m : Msm) (id : OpId) : Msm :=
   match Msm.find m.state id.prev with
@@ -102,13 +111,8 @@ def Msm.markEnd (m : Msm) (id : OpId) : Msm :=
     | none => m
     | some (_, mark) =>
       let state' := m.state.take index ++ m.state.drop (index + 1)
-      let cur :=
-        if (markAbove state' index mark.name).isNone then
-          match markBelow state' index mark.name with
-          | some below => if below.value == mark.value then m.current else m.current.insert below.name below.value
-          | none => m.current.remove mark.name
-        else m.current
-      { state := state', current := cur }
+      { state := state',
+        current := endCache m.current (markAbove state' index mark.name).isSome (markBelow state' index mark.name) mark }
 
 /-! ### the item walk (`TopOps::marks()`) -/
 
@@ -132,15 +136,18 @@ def Msm.step (m : Msm) : Item → Msm
   | .mend id => m.markEnd id
   | .elem _ _ => m
 
-/-- `get_marks_for(obj, index)`: `iter.nth(index)` then the machine's marks without unmarks -/
-def getMarksGo (m : Msm) : List Item → Nat → MarkSet
-  | [], _ => m.current.withoutUnmarks
-  | .elem _ _ :: _, 0 => m.current.withoutUnmarks
-  | .elem _ _ :: rest, n + 1 => getMarksGo m rest n
-  | it :: rest, n => getMarksGo (m.step it) rest n
+/-- the marks `get_marks_for` returns: the machine's cache without unmarks -/
+def Msm.out (m : Msm) : MarkSet := m.current.withoutUnmarks
 
-def getMarksAt (ops : List Op) (obj : ObjId) (index : Nat) : MarkSet :=
-  getMarksGo {} (items ops obj) index
+/-- `get_marks_for(obj, index)`: advance (`stop` = units consumed so far) to the element whose unit range
+    contains `index`, then the machine's marks without unmarks -/
+def getMarksGo (wf : Op → Nat) (m : Msm) : List Item → Nat → Nat → MarkSet
+  | [], _, _ => m.out
+  | .elem _ t :: rest, index, stop => if stop > index then m.out else getMarksGo wf m rest index (stop + wf t)
+  | it :: rest, index, stop => if stop > index then m.out else getMarksGo wf (m.step it) rest index stop
+
+def getMarksAt (wf : Op → Nat) (ops : List Op) (obj : ObjId) (index : Nat) : MarkSet :=
+  getMarksGo wf {} (items ops obj) index 0
 
 /-- `MarkAccumulator`: name ↦ list of (index, len, value), names in key order -/
 abbrev MarkAcc := List (Bytes × List (Nat × Nat × Scalar))
@@ -229,20 +236,30 @@ def SpanWalk.flush (w : SpanWalk) : SpanWalk :=
   | some (buf, len, ms) =>
     if len == 0 then { w with next := none } else { w with next := none, out := w.out ++ [.text buf ms] }
 
-/-- `SpanState::push_str` -/
-def SpanWalk.pushStr (W : Bytes → Nat) (w : SpanWalk) (s : Bytes) : SpanWalk :=
-  let w := match w.next with
-    | some (_, _, ms) => if ms != w.marks then w.flush else w
-    | none => w
+/-- appending to `next_text` (created with the current marks when absent) -/
+def SpanWalk.append (W : Bytes → Nat) (w : SpanWalk) (s : Bytes) : SpanWalk :=
   match w.next with
   | some (buf, len, ms) => { w with next := some (buf ++ s, len + W s, ms) }
   | none => { w with next := some (s, W s, w.marks) }
 
+/-- `flush_needed`: the pending text carries other marks than the current ones -/
+def SpanWalk.flushNeeded (w : SpanWalk) : Bool :=
+  match w.next with
+  | some (_, _, ms) => ms != w.marks
+  | none => false
+
+/-- `SpanState::push_str` -/
+def SpanWalk.pushStr (W : Bytes → Nat) (w : SpanWalk) (s : Bytes) : SpanWalk :=
+  (if w.flushNeeded then w.flush else w).append W s
+
+/-- `SpanState::push_block` -/
+def SpanWalk.pushBlock (w : SpanWalk) : SpanWalk :=
+  { w.flush with out := w.flush.out ++ [.block] }
+
+def Op.isBlock (o : Op) : Bool := o.action == .make .map
+
 def SpanWalk.step (W : Bytes → Nat) (w : SpanWalk) : Item → SpanWalk
-  | .elem _ top =>
-    match top.action with
-    | .make .map => let w := w.flush; { w with out := w.out ++ [.block] }
-    | _ => w.pushStr W (opStr top)
+  | .elem _ top => if top.isBlock then w.pushBlock else w.pushStr W (opStr top)
   | it =>
     let m := w.msm.step it
     { w with msm := m, marks := m.current.withoutUnmarks }
@@ -345,12 +362,15 @@ def insertQuery (wf : Op → Nat) (ops : List Op) (obj : ObjId) (target : Nat) :
 
 /-! ### local calls (width-parametrised: `wf` is `ow g enc isText`) -/
 
+/-- `OpsFound::width`: the width of the winning (last) visible op of an element -/
+def lastW (wf : Op → Nat) (r : List Op) : Nat :=
+  match r.getLast? with | some o => wf o | none => 0
+
 /-- `seek_ops_by_index` (as `Local.seekByIndex`, over an arbitrary width function) -/
 def seekByIndexW (wf : Op → Nat) : List (OpId × List Op) → Nat → Nat → Option (OpId × List Op × Nat)
   | [], _, _ => none
   | (id, r) :: rest, index, start =>
-    let w := match r.getLast? with | some o => wf o | none => 0
-    if index < start + w then some (id, r, start) else seekByIndexW wf rest index (start + w)
+    if index < start + lastW wf r then some (id, r, start) else seekByIndexW wf rest index (start + lastW wf r)
 
 /-- the delete loop of `inner_splice` (as `Local.deleteLoop`) -/
 def deleteLoopW (wf : Op → Nat) (t : Tx) (obj : ObjId) :
@@ -361,7 +381,7 @@ def deleteLoopW (wf : Op → Nat) (t : Tx) (obj : ObjId) :
     match seekByIndexW wf (seqRegs ops obj) delIndex 0 with
     | none => acc
     | some (eid, reg, start) =>
-      let step := match reg.getLast? with | some o => wf o | none => 0
+      let step := lastW wf reg
       if start < delIndex then deleteLoopW wf t obj fuel ops (start + step) deleted del acc
       else
         let op : Op := ⟨t.nextId acc.length, obj, .elem eid, false, .del, reg.map (·.id)⟩
@@ -424,6 +444,10 @@ def localMark (wf : Op → Nat) (ops : List Op) (t : Tx) (obj : ObjId) (start st
   | .ok ty =>
     if ty != .text then ([], .error .invalidOp) else
     if start == stop && !before && !after then ([], .ok ()) else
+    -- the end anchor is resolved before anything is inserted (fix d5de6e0cf)
+    match (if start != stop then (insertQuery wf ops obj stop).map (fun _ => ()) else .ok ()) with
+    | .error err => ([], .error err)
+    | .ok _ =>
     match insertQuery wf ops obj start with
     | .error err => ([], .error err)
     | .ok q1 =>
@@ -433,7 +457,7 @@ def localMark (wf : Op → Nat) (ops : List Op) (t : Tx) (obj : ObjId) (start st
       let endAfter : Op := ⟨endId, obj, .elem beginId, true, .markEnd after, []⟩
       if start == stop then ([beginOp, endAfter], .ok ()) else
       let ops1 := ops ++ [beginOp]
-      -- the begin op is in the store when the end anchor is resolved; an error here leaves it (D5)
+      -- the begin op is in the store when the end anchor is resolved again (it cannot fail any more)
       match insertQuery wf ops1 obj stop with
       | .error err => ([beginOp], .error err)
       | .ok q2 =>
